@@ -522,6 +522,23 @@ package middleware
 //@ assume after PF forall k string :: in(k, ret(PF,0,0)) ==> ret(PF,0,0)[k] != nil
 //@ requires route != nil ==> forall k string :: in(k, route.Producers) ==> route.Producers[k] != nil
 //@ ensures [C08:negotiate] calls(RF) == 1 && arg(RF,0,0) == c && arg(RF,0,1) == r
+// the offers negotiated over: the declared media types that are not the API default, and last the default
+//@ watch DPF = invoke (middleware.RoutableAPI).DefaultProduces
+//@ stable produces[*]
+//@ loop 0 invariant [C08:offers] calls(DPF) == rangeindex + 1 && calls(RF) == 0 && len(offers) <= rangeindex + 1
+//@ loop 0 invariant [C08:offersalloc] allocated(offers) && fresh(offers)
+//@ loop 0 invariant [C08:offers] forall k int :: 0 <= k && k < len(offers) ==> exists j int :: 0 <= j && j <= rangeindex && offers[k] == produces[j] && produces[j] != ret(DPF,j,0)
+//@ loop 0 invariant [C08:offers] forall j int :: 0 <= j && j <= rangeindex && produces[j] != ret(DPF,j,0) ==> exists k int :: 0 <= k && k < len(offers) && offers[k] == produces[j]
+// (stated for the list as it is handed to the debug logger, one statement before the negotiation gets the same slice: the logger is outside code and the model lets it write the list)
+//@ watch DL = dyn field:middleware.Context.debugLogf
+//@ ensures [C08:offerslast] len(arg(RF,0,2)) >= 1 && calls(DPF) >= len(produces) + 1
+//@ ensures [C08:offerslast2] before(DL, 1, len(offers)) == len(arg(RF,0,2))
+//@ ensures [C08:offerslast3] before(DL, 1, offers[len(offers)-1]) == ret(DPF,len(produces),0)
+//@ ensures [C08:offerslast4] before(DL, 1, offers) == arg(RF,0,2)
+//@ ensures [C08:offerskept1] before(DPF, 1, len(offers)) == len(arg(RF,0,2)) - 1
+//@ ensures [C08:offerskept] forall k int :: 0 <= k && k < len(arg(RF,0,2)) - 1 ==> before(DL, 1, offers[k]) == before(DPF, 1, offers[k])
+//@ ensures [C08:offersdeclared] forall k int :: 0 <= k && k < len(arg(RF,0,2)) - 1 ==> exists j int :: 0 <= j && j < len(produces) && before(DPF, 1, offers[k] == produces[j] && produces[j] != ret(DPF,j,0))
+//@ ensures [C08:offersall] forall j int :: 0 <= j && j < len(produces) && before(DPF, 1, produces[j] != ret(DPF,j,0)) ==> exists k int :: 0 <= k && k < len(arg(RF,0,2)) - 1 && before(DPF, 1, offers[k] == produces[j])
 //@ ensures [C08:contenttype] calls(HS) >= 1 && arg(HS,0,1) == "Content-Type" && arg(HS,0,2) == ret(RF,0,0) && (calls(WH) >= 1 ==> time(HS,0) < time(WH,0)) && (calls(WR) >= 1 ==> time(HS,0) < time(WR,0)) && (calls(SD) >= 1 ==> time(HS,0) < time(SD,0))
 //@ ensures [C08:responder] implements(data, "Responder") ==> calls(WR) == 1 && recv(WR,0) == data && arg(WR,0,0) == rw && calls(PR) == 0 && calls(SD) == 0 && calls(WH) == 0
 //@ ensures [C08:responderproducer] implements(data, "Responder") ==> calls(NO) >= 1 && arg(NO,0,0) == ret(RF,0,0) && (in(ret(NO,0,0), route.Producers) ==> arg(WR,0,1) == route.Producers[ret(NO,0,0)])
